@@ -343,6 +343,59 @@ pub unsafe extern "C" fn open(path: *const libc::c_char, flags: i32, mode: libc:
     libc::syscall(libc::SYS_openat, libc::AT_FDCWD, path, flags, mode as libc::c_uint) as i32
 }
 
+/// rename / unlink on simulated paths (an exporter that writes a temporary file and renames it
+/// into place must work on the simulated disk too). Open fds keep referring to the old name's
+/// image by path, which is enough for the write-then-rename idiom.
+#[no_mangle]
+pub unsafe extern "C" fn rename(old: *const libc::c_char, new: *const libc::c_char) -> i32 {
+    match (path_of(old), path_of(new)) {
+        (Some(o), Some(n)) => {
+            crate::sched::point();
+            let mut w = world();
+            match w.disk.remove(&o) {
+                Some(img) => {
+                    w.disk.insert(n.clone(), img);
+                    for f in w.fds.values_mut() {
+                        if f.path == o {
+                            f.path = n.clone();
+                        }
+                    }
+                    w.ev(Ev { sys: b'n', idx: 0, req: 0, act: 0, ret: 0 });
+                    0
+                }
+                None => {
+                    w.ev(Ev { sys: b'n', idx: 0, req: 0, act: 0, ret: -(libc::ENOENT as i64) });
+                    drop(w);
+                    set_errno(libc::ENOENT);
+                    -1
+                }
+            }
+        }
+        (None, None) => libc::syscall(libc::SYS_renameat2, libc::AT_FDCWD, old, libc::AT_FDCWD, new, 0) as i32,
+        _ => {
+            set_errno(libc::EXDEV);
+            -1
+        }
+    }
+}
+
+#[no_mangle]
+pub unsafe extern "C" fn unlink(path: *const libc::c_char) -> i32 {
+    if let Some(p) = path_of(path) {
+        crate::sched::point();
+        let mut w = world();
+        let existed = w.disk.remove(&p).is_some();
+        w.ev(Ev { sys: b'u', idx: 0, req: 0, act: 0, ret: if existed { 0 } else { -(libc::ENOENT as i64) } });
+        drop(w);
+        if existed {
+            return 0;
+        }
+        set_errno(libc::ENOENT);
+        return -1;
+    }
+    libc::syscall(libc::SYS_unlinkat, libc::AT_FDCWD, path, 0) as i32
+}
+
 #[no_mangle]
 pub unsafe extern "C" fn close(fd: i32) -> i32 {
     CALLS_CLOSE.fetch_add(1, Ordering::Relaxed);
@@ -611,6 +664,17 @@ pub fn liveness_selftest() -> Result<(), String> {
     match std::fs::File::open(sim_path("does-not-exist")) {
         Err(e) if e.kind() == std::io::ErrorKind::NotFound => {}
         other => return Err(format!("missing file: {other:?}")),
+    }
+    // 3b. rename / remove_file on simulated paths
+    install_plan(Plan::default());
+    std::fs::write(sim_path("a.tmp"), b"x").map_err(|e| format!("write: {e}"))?;
+    std::fs::rename(sim_path("a.tmp"), sim_path("a.txt")).map_err(|e| format!("rename seam dead: {e}"))?;
+    if disk_get("/SIMDISK/a.txt").as_deref() != Some(b"x".as_slice()) || disk_get("/SIMDISK/a.tmp").is_some() {
+        return Err("rename seam: wrong disk state".into());
+    }
+    std::fs::remove_file(sim_path("a.txt")).map_err(|e| format!("unlink seam dead: {e}"))?;
+    if disk_get("/SIMDISK/a.txt").is_some() {
+        return Err("unlink seam: file still there".into());
     }
     // 4. non-simulated paths still reach the real kernel
     match std::fs::read("/proc/self/comm") {
